@@ -11,6 +11,7 @@ def dispatch (mode : String) : Option (List String → Verdict) :=
   | "C10" => some SockModel.Drive.C10.runCase
   | "C06" => some SockModel.Drive.C06.runCase
   | "C14" => some SockModel.Drive.C14.runCase
+  | "C17" => some SockModel.Drive.C17.runCase
   | "C06legacy" => some SockModel.Drive.C06.runCaseLegacy
   | _ => none
 
